@@ -632,7 +632,7 @@ pub fn scaling(run: &mut PropRun, cfg: &RunCfg) {
 
 pub fn run(cfg: &RunCfg) -> PropRun {
     let mut run = PropRun::default();
-    run.rule = "pools of 2..4 input strings (token soup over every token class incl. MAX_SAFE_INTEGER+1, u64::MAX, 2^64, 30-digit numbers, multi-byte and control characters; AST-rendered ranges incl. the finding classes; algebra leaf texts over adjacent versions; spelled versions with edits; limit numbers under every operator; long repetitions; multi-line/over-long texts) + every string up to length 5 over a 14-symbol alphabet + near-limit lengths. For each string both parsers run; on every Ok/Err the whole public surface is called under catch_unwind with overflow checks and debug assertions on: Display/Debug/Clone/==/Hash/serde, every SemverError accessor and miette diagnostic incl. three report handlers, satisfies, min_version, max/min_satisfying, diff, and intersect/difference/allows_all/allows_any on all ordered pairs incl. each value against itself, then on results up to composition depth 3 (operands capped at 64 alternatives). A watchdog turns a >60 s case into exit 2; CPU-time scaling of 30 adversarial families (20 repetitions of one unit, 10 ladders of pairwise different units) is measured at n and 8n, and so are generated families (units of 1..4 soup tokens, optionally with a running index). Non-trivial = a pool where a parser succeeded and a binary operation ran, or error accessors ran on a non-ASCII / multi-line input; distinct by the pool.".into();
+    run.rule = "pools of 2..4 input strings (token soup over every token class incl. MAX_SAFE_INTEGER+1, u64::MAX, 2^64, 30-digit numbers, multi-byte and control characters; AST-rendered ranges incl. the finding classes; algebra leaf texts over adjacent versions; spelled versions with edits; limit numbers under every operator; long repetitions; multi-line/over-long texts) + every string up to length 5 over a 14-symbol alphabet + near-limit lengths. For each string both parsers run; on every Ok/Err the whole public surface is called under catch_unwind with overflow checks and debug assertions on: Display/Debug/Clone/==/Hash/serde, every SemverError accessor and miette diagnostic incl. three report handlers, satisfies, min_version, max/min_satisfying, diff, and intersect/difference/allows_all/allows_any on all ordered pairs incl. each value against itself, then on results up to composition depth 3 (operands capped at 64 alternatives). A case that burns more than 60 s of thread CPU time is a hang and a violation (the process is supervised: a crash of the check process is re-examined pool by pool); long inputs, many-alternative operands and repeated feedback of results run in child processes on a 256 KiB stack; CPU-time scaling of 30 adversarial families (20 repetitions of one unit, 10 ladders of pairwise different units) is measured at n and 8n, and so are generated families (units of 1..4 soup tokens, optionally with a running index). Non-trivial = a pool where a parser succeeded and a binary operation ran, or error accessors ran on a non-ASCII / multi-line input; distinct by the pool.".into();
     run.assumptions = vec![
         "negative tuple components are outside the property (debug_assert documents the precondition)".into(),
         "binary operations are inherently O(|A||B|) in the number of alternatives; only the parsers and unary operations are held to the linear-time clause".into(),
